@@ -6,5 +6,14 @@ package goja
 // nothing writes them once they have been handed out. For each field below every store in the package
 // is either to an object the storing function has just allocated, or inside a declared constructor.
 
+// A Program is written by the compiler while it is being built and by nothing else.
+//@ constructor-of Program (*compiler).emit (*compiler).trimCode (*compiler).evalConst (*compiler).compileLabeledForStatement (*compiledFunctionLiteral).compile (*compiler).compile (*Program).addSrcMap
 //@ stable Program.code Program.funcName Program.src Program.srcMap
-//@ stable importedString.s importedString.u importedString.scanned
+
+// An imported string's UTF-16 form is filled in lazily: the one store is in the function handed to
+// sync.Once.Do (checked: that function is used nowhere else), and the flag that tells readers it is
+// there is only touched through sync/atomic.
+//@ constructor-of importedString (*importedString).scan$1
+//@ onceonly (*importedString).scan$1
+//@ stable importedString.s importedString.u
+//@ atomiconly importedString.scanned
